@@ -10,7 +10,8 @@ SPEC = {
                   "one selector and parseable cidrs, and the AddRule arguments are the ones the text denotes; the real firewall loads iff additionally every "
                   "range has lo <= hi, and then its table admits exactly the packets the textual rules describe (composition with C16_refine); the loader "
                   "never panics. Tied to parsePort / AddFirewallRulesFromConfig by a table of port strings, generated strings and generated YAML "
-                  "configurations that are loaded and then probed with Drop.",
+                  "configurations that are loaded and then probed with Drop, and by whole firewalls built through the real NewFirewallFromConfig "
+                  "(default_local_cidr_any true/false/absent x unsafe networks x rules with/without local_cidr in both directions) probed in both directions.",
     "level_note": "Trusted: Coq kernel; netip.ParsePrefix is a parameter of the theorems (the harness supplies its real results for the strings of each case); "
                   "fmt %v and yaml.v3 typing are modelled for nil/string/int/bool/float/list/map values (floats carried as their %v text); bart as in C16. "
                   "The correspondence is differential testing, so the link model<->Go is as strong as its generator. Found and repaired through this check: F21.",
@@ -18,7 +19,7 @@ SPEC = {
     "build_comp": "fwconfig",
     "props": ["props/C22.v"],
     "corr": ["corr/FwConfig_corr.v"],
-    "comps": [{"comp": "fwconfig", "n_quick": 600, "n_thorough": 20000}],
+    "comps": [{"comp": "fwconfig", "n_quick": 450, "n_thorough": 20000}],
     "trusted": ["model/FwConfig.v parse_port_value/parse_port/convert_rule/check_rule/load_list are hand-written mirrors of parsePortValue, parsePort, convertRule and "
                 "AddFirewallRulesFromConfig (tied by correspondence)",
                 "netip.ParsePrefix results are oracle inputs of the correspondence cases",
